@@ -58,6 +58,7 @@ fn main() {
     let code = match prop.as_str() {
         "C05" | "C06" | "C14" => gridmc::clientgrid::run(&ctx),
         "C07" => gridmc::boundgrid::run(&ctx),
+        "C08" | "C09" | "C10" | "C12" | "C13" => histmc::props::run(&ctx),
         "C02" | "C03" | "C04" | "C11" | "C18" => seqmc::props::run(&ctx),
         _ => machinery_failure(&format!("no engine for property {prop}")),
     };
